@@ -20,7 +20,7 @@ CHUNK = 1
 
 
 def sizes(tier):
-    g = [2, 3, 4, 6, 8] if tier == 'quick' else [2, 3, 4, 5, 6, 7, 8, 10]
+    g = [2, 3, 4, 5, 6, 8] if tier == 'quick' else [2, 3, 4, 5, 6, 7, 8, 10, 12]
     return [(h, w) for h in g for w in g]
 
 
@@ -33,8 +33,6 @@ def plan(tier):
     lay = [(o, r) for o in range(6) for r in range(6) if o != r]
     for pi, (b, q) in enumerate(dtc.PAIRS):
         for (h, w) in sizes(tier):
-            if tier == 'quick' and (pi + h + w) % 3 and (b, q) != ('near_sym_a', 'qshift_a'):
-                continue            # quick: every pair on a third of the grid (rotating), the default pair on all of it
             for J in (1, 2, 3):
                 items.append({'biort': b, 'qshift': q, 'h': h, 'w': w, 'J': J, 'layouts': [[2, -1]], 'masks': 'none', 'subsets': h * w <= 36})
         h, w = [(6, 8), (5, 6), (8, 4), (7, 7)][pi % 4]
